@@ -232,7 +232,7 @@ def w_fuzz(exe, runs, seed, corpus_dir, workdir):
         for tkn in ['"@"', '"["', '"]"', '"[IPv6:"', '"."', '".."', '"\\""', '"\\\\"', '"::"', '"xn--"', '".test"', '".example.com"', '"\\x0d\\x0a "',
                     '"\\xd1\\x80\\xd1\\x84"', '"localhost"', '"1.2.3.4"', '"-"', '"_"']:
             f.write(tkn + "\n")
-    cmd = [exe, "-runs=%d" % runs, "-seed=%d" % seed, "-max_len=4096", "-artifact_prefix=" + art, "-dict=" + dict_path, "-print_final_stats=1", cdir]
+    cmd = [exe, "-runs=%d" % runs, "-seed=%d" % seed, "-max_len=4096", "-rss_limit_mb=4096", "-artifact_prefix=" + art, "-dict=" + dict_path, "-print_final_stats=1", cdir]
     p = subprocess.run(cmd, stdout=subprocess.PIPE, stderr=subprocess.PIPE, timeout=3000,
                        env=build.san_env({"ASAN_OPTIONS": "abort_on_error=1:detect_leaks=1:handle_abort=1"}))
     err = p.stderr.decode("utf-8", "replace")
@@ -320,7 +320,9 @@ def main(tier, seed):
         fz = build_fuzzer(cx)
         cdir = os.path.join(cx.dir, "seedcorpus")
         os.makedirs(cdir)
-        for i, a in enumerate(corpus[::5][:3000]):
+        # seeds of at most 64 KiB: libFuzzer keeps every seed (and its mutation buffers) in memory, multi-MiB seeds trip its RSS limit
+        # without the library having allocated anything (seen once: thorough seed 2, "out-of-memory" with 24 MB live heap; DESIGN section 11)
+        for i, a in enumerate([x for x in corpus if len(x) <= 65536][::5][:3000]):
             with open(os.path.join(cdir, "c%05d" % i), "wb") as f:
                 f.write(bytes([i & 31]) + a)
         for j in range(12):
